@@ -31,6 +31,8 @@ def compact(events):
             out.append(r)
         elif ev == "cnt" and e["name"].startswith("corerad_monitor_"):
             v = e["v"]
+            if not float(v).is_integer():       # every value the monitor exports is a whole number; anything else can match nothing
+                v = -1000003
             if e["name"].endswith("_timestamp_seconds"):
                 rel = int(v) - base_s
                 v = {"inf": rel >= INF, "rest": rel - INF if rel >= INF else rel}
